@@ -576,8 +576,8 @@ RunTerm(t, n, it, env, K, S, f) ==
                 (IF Len(S.inp) = 0 THEN Raise(ErrV(Str(CpOf(<<"b","r","e","a","k">>))), S)
                  ELSE Cont(Fresh(it, S.inp[1]), K, [S EXCEPT !.inp = Tail(S.inp)], f))
            [] name = "getpath" /\ ar = 1 -> NativeCall("getpath", <<ArgQ(args[1])>>, 1, it, env, K, S, f - 1)
-           [] name \in {"debug", "stderr", "input_filename", "now", "localtime", "mktime", "gmtime", "strftime", "strptime",
-                        "strflocaltime", "env", "builtins", "modulemeta", "_match", "$__loc__", "input_line_number",
+           [] name \in {"debug", "stderr", "input_filename", "now", "localtime",
+                        "strflocaltime", "env", "builtins", "modulemeta", "$__loc__", "input_line_number",
                         "ltrimstr/2"} -> Raise(OOM, S)
            [] OTHER -> NativeCall(name, [j \in 1..ar |-> ArgQ(args[j])], 0, it, env, K, S, f - 1)
 
